@@ -7,6 +7,15 @@ EXTENDS Ioapi, TraceLib
 
 EnfC10 == IOEnv.PNC_E_C10 = "1"
 EnfC11 == IOEnv.PNC_E_C11 = "1"
+EnfC02 == IOEnv.PNC_E_C02 = "1"
+\* C02 on the time flags (they are data of the file): a selection on TSTEP picks
+\* exactly the selected records of the source's TFLAG, in the selected order
+TflagSelDiag(src, a, g) ==
+  LET ix == IF Selected(a, "TSTEP") THEN SelIdx(DimLen(src.f, "TSTEP"), SelOf(a, "TSTEP"))
+            ELSE [k \in 1..Len(src.m.tflag_dates) |-> k - 1]
+  IN IF g.m.tflag_dates # [k \in 1..Len(ix) |-> src.m.tflag_dates[ix[k] + 1]] THEN "TFLAG dates are not the selected records of the source"
+     ELSE IF g.m.tflag_times # [k \in 1..Len(ix) |-> src.m.tflag_times[ix[k] + 1]] THEN "TFLAG times are not the selected records of the source"
+     ELSE ""
 
 NVarS(j) ==   \* structure-only variable (no data logged)
   [name |-> j.name, dims |-> j.dims, shape |-> j.shape, dt |-> j.dt, masked |-> j.masked,
@@ -62,6 +71,8 @@ TStep ==
                 /\ MetaOK(src.m) /\ src.m.times_ok /\ src.m.vglvls_exact) =>
                /\ ChkT(tr, l + 1, "C11: metadata of the window missing or not representable", MetaOK(g.m) /\ g.m.times_ok /\ g.m.vglvls_exact)
                /\ ChkS(tr, l + 1, "C11 window does not keep referencing", WindowDiag(src.f, src.m, e.args, g.f, g.m))
+          /\ (EnfC02 /\ e.act = "slice" /\ ~MultiList(e.args) /\ Dom_slice(src.f, e.args) /\ MetaOK(src.m) /\ HasDim(src.f, "TSTEP")) =>
+               ChkS(tr, l + 1, "C02 slice: time flags of the result", TflagSelDiag(src, e.args, g))
      /\ (l + 1 = Len(tr.steps) => TrAccept(tr))
 
 TSpec == TInit /\ [][TStep]_tvars
